@@ -8,12 +8,19 @@
 (*                   handler in X-Req (0: a response the server produced without a handler), status, the      *)
 (*                   Content-Length field (-1: none), the body octets that followed, fill = they are the      *)
 (*                   octets that handler wrote                                                                *)
-(*   End{closed, left, garbage}    the server closed the connection; octets left over that are no complete    *)
-(*                   response; octets that do not start a response where one must start (interleaving)        *)
+(*                   octets that handler wrote (large bodies: a position-dependent pattern), alien = the body *)
+(*                   contains what looks like the head of another response                                    *)
+(*   End{closed, left, garbage, invoked}   the server closed the connection; octets left over that are no     *)
+(*                   complete response; octets that do not start a response where one must start (interleaving*)
+(*                   or a Content-Length that is not the body length); the requests whose handler was entered *)
 (* Abs: the k-th response answers the k-th request (exactly one each, request order, nothing after the        *)
 (* response of the first closing request), is well-formed for it (status class, Content-Length = body length, *)
 (* HEAD without body, throw => 500, unparsable => status >= 400 or just the close), and the closing request   *)
-(* is followed by the close; a handler's response never appears before the handler was released.              *)
+(* is followed by the close; a handler's response never appears before the handler was released; a request     *)
+(* that cannot be parsed / whose length cannot be decided never reaches a handler.  Well-formedness of every   *)
+(* single response (Content-Length = the body octets that follow, the body is that handler's and nobody        *)
+(* else's octets, nothing between responses) is demanded by Fits and by End.left / End.garbage - also from the *)
+(* deviation actions, i.e. independent of the ORDER of the responses.                                          *)
 (* The check validates in two passes.  Eval = TRUE: the Abs actions only, but an event that Abs cannot take    *)
 (* marks the execution (ok = FALSE) instead of blocking, and Reset prints <<"NOTABS", execution number>> - a   *)
 (* deterministic pass that tells which executions the property does not explain.  Eval = FALSE (only those     *)
@@ -33,7 +40,7 @@ vars == <<l, reqs, released, answered, used, xn, ok>>
 
 Init == l = 1 /\ reqs = <<>> /\ released = {} /\ answered = <<>> /\ used = {} /\ xn = 0 /\ ok = TRUE
 
-Gated(r) == r.k \in {"G", "H", "P", "C", "T", "R"}
+Gated(r) == r.k \in {"G", "H", "P", "C", "T", "R", "L"}
 Closing(r) == r.close \/ r.k \in {"B", "U"}
 RespOptional(r) == r.k \in {"B", "U"}
 N == Len(reqs)
@@ -46,7 +53,9 @@ InOrderSoFar == \A i \in 1..Len(answered) : answered[i] = i
 Fits(ev, j) ==
     LET r == reqs[j] IN
     /\ IF Gated(r) THEN ev.for = j ELSE ev.for = 0
+    /\ ~ev.alien
     /\ CASE r.k \in {"G", "P", "C", "R"} -> ev.st = 200 /\ ev.cl = r.n /\ ev.bl = r.n /\ ev.fill
+         [] r.k = "L" -> ev.st = 200 /\ ev.cl = r.n * 1024 /\ ev.bl = r.n * 1024 /\ ev.fill
          [] r.k = "H" -> ev.st = 200 /\ ev.cl = r.n /\ ev.bl = 0
          [] r.k = "T" -> ev.st = 500 /\ ev.cl = ev.bl
          [] r.k = "N" -> ev.st = 404 /\ ev.cl = ev.bl
@@ -71,16 +80,18 @@ DevRespOutOfOrder ==
          /\ answered' = Append(answered, j)
     /\ used' = used \cup {"DevRespOutOfOrder"} /\ UNCHANGED <<reqs, released, xn, ok>>
 
+\* no handler was entered for a request that cannot be parsed / has no route / needs none
+InvokedOk(ev) == \A k \in DOMAIN ev.invoked : ev.invoked[k] \in 1..N /\ Gated(reqs[ev.invoked[k]])
 AbsEndOk(ev) ==
     LET c == FirstClosing IN
-    /\ ev.left = 0 /\ ~ev.garbage
+    /\ ev.left = 0 /\ ~ev.garbage /\ InvokedOk(ev)
     /\ IF c > N THEN Answered = 1..N
        ELSE /\ ev.closed
             /\ Answered = 1..c \/ (RespOptional(reqs[c]) /\ Answered = 1..(c - 1))
 EvEnd == IsEv("End") /\ AbsEndOk(Ev) /\ UNCHANGED <<reqs, released, answered, used, xn, ok>>
 DevCloseOvertakes ==
     /\ IsEv("End") /\ ~Eval /\ ~AbsEndOk(Ev) /\ "DevCloseOvertakes" \in DevAllowed
-    /\ Ev.left = 0 /\ ~Ev.garbage /\ Ev.closed
+    /\ Ev.left = 0 /\ ~Ev.garbage /\ Ev.closed /\ InvokedOk(Ev)
     /\ \E j \in 1..N : Closing(reqs[j]) /\ (j \in Answered \/ RespOptional(reqs[j]))     \* somebody did close
     /\ used' = used \cup {"DevCloseOvertakes"} /\ UNCHANGED <<reqs, released, answered, xn, ok>>
 
